@@ -10,7 +10,7 @@ class P(c04.P):
     MODULE = "C05"
     THEOREMS = ["C05_derivative_form", "C05_derivative_sign_up", "C05_no_overshoot_up", "C05_negation", "C05_no_overshoot_down",
                 "C05_harmonic_in_region", "C05_end_slope_in_region", "C05_harmonic_equal", "C05_collinear_segment",
-                "C05_no_overshoot_float"]
+                "C05_no_overshoot_float", "C05_float_hypotheses_hold"]
     RULE = ("same streams as C04; oracle decides, for the RETURNED cubic and every real x of each knot interval (analytically from "
             "the derivative's roots and vertex, no x-sampling): monotone, within the knot ordinates, zero slope at extrema / "
             "plateau edges, straight line on collinear data, and agreement with the exact rational Kruger spline at knots, "
